@@ -185,6 +185,8 @@ inline bool nontrivial_range(std::size_t N, A3 const &mn, A3 const &sp, std::siz
 void register_pos_shards();  // C08_pos.cpp: free functions on pos/dim/min/sup for three size types
 void register_grid_shards(); // C08_grid.cpp: grid::object, at_optional, pos_ref_range
 void register_ops_shards();  // C08_ops.cpp: resize, map, apply, fill, clamp helpers
+void register_hist_shards();  // C08_hist.cpp: range objects kept across operations on their grid
+void register_cat_shards();   // C08_cat.cpp: value categories of grid arguments (apply, map, resize, fill)
 void register_scale_shards(); // C08_scale.cpp: boundary lattice of large extents/coordinates; grid value operations
 }
 #endif
